@@ -39,6 +39,7 @@ package config
 // other party's modulus passed the size gates and the threshold/party-count relation holds.
 //@ func (*Config).UnmarshalBinary
 //@   nopanic[C05,C15]
+//@   use bits
 //@   requires c != nil
 //@   assert_at[C15] NewSecretKeyFromPrimes "paillier.NewSecretKeyFromPrimes(cm.P, cm.Q)": arg0 != nil && arg1 != nil && nbits(natval(arg0)) == 1024 && nbits(natval(arg1)) == 1024
 //@   assert_at[C15] NewPublicKey "paillier.NewPublicKey(p.N)": arg0 != nil && nbits(natval(arg0)) == 2048
